@@ -59,6 +59,10 @@ pub struct C02Case {
     pub pre: u8,
     /// plain stress instead of a directed schedule: writers x frames
     pub stress: Option<(u8, u8)>,
+    /// every writer removes, after each append, the stored frame it appended this many appends
+    /// earlier: the cursor a last-id reader holds may name a frame that is gone
+    #[serde(default)]
+    pub remove_lag: Option<u8>,
 }
 
 pub fn rule_spec(n_writers: u8, labels: usize) -> BoxedStrategy<RuleSpec> {
@@ -91,22 +95,25 @@ pub fn strategy() -> BoxedStrategy<C02Case> {
         proptest::collection::vec((any::<bool>(), proptest::option::weighted(0.4, 0u8..3)), 0..=2),
         proptest::collection::vec(rule_spec(4, APPEND_LABELS.len()), 1..=5),
         0u8..4,
+        proptest::option::weighted(0.3, 1u8..3),
     )
-        .prop_map(|(writers, pollers, followers, rules, pre)| C02Case {
+        .prop_map(|(writers, pollers, followers, rules, pre, remove_lag)| C02Case {
             writers,
             pollers,
             followers,
             rules,
             pre,
             stress: None,
+            remove_lag,
         });
-    let stress = (4u8..=8, 20u8..=60).prop_map(|(w, n)| C02Case {
+    let stress = (4u8..=8, 20u8..=60, proptest::option::weighted(0.3, 1u8..3)).prop_map(|(w, n, remove_lag)| C02Case {
         writers: vec![],
         pollers: vec![(None, 100), (Some(1), 150)],
         followers: vec![(false, None), (true, None)],
         rules: vec![],
         pre: 2,
         stress: Some((w, n)),
+        remove_lag,
     });
     prop_oneof![9 => directed, 1 => stress].boxed()
 }
@@ -151,6 +158,7 @@ fn run_in(case: &C02Case, exec: &mut Exec) -> Result<CaseInfo, Fail> {
                 frames: (0..n)
                     .map(|i| (spec(TOPICS[(i % 3) as usize], ctxs[((k + i) % 3) as usize], None), 0))
                     .collect(),
+                remove_lag: case.remove_lag,
             })
             .collect(),
         None => case
@@ -171,6 +179,7 @@ fn run_in(case: &C02Case, exec: &mut Exec) -> Result<CaseInfo, Fail> {
                         )
                     })
                     .collect(),
+                remove_lag: case.remove_lag,
             })
             .collect(),
     };
@@ -270,6 +279,7 @@ fn evaluate(case: &C02Case, sspec: &ScenarioSpec, res: &ScenarioResult, total: u
             }
         }
     }
+    let removed: BTreeSet<String> = res.writers.iter().flat_map(|w| w.removed.iter().cloned()).collect();
     if appended.len() != total {
         return Err(infra(format!("scenario ran {} of {total} appends", appended.len())));
     }
@@ -282,7 +292,7 @@ fn evaluate(case: &C02Case, sspec: &ScenarioSpec, res: &ScenarioResult, total: u
     }
     let fin_ids: BTreeSet<&String> = fin.iter().map(|w| &w.id).collect();
     for (id, (f, _, _)) in &appended {
-        let stored = f.ttl != Some(WTtl::Ephemeral);
+        let stored = f.ttl != Some(WTtl::Ephemeral) && !removed.contains(id);
         if stored != fin_ids.contains(id) {
             return Err(Fail::new(
                 if stored { Class::Missing } else { Class::ExtraEphemeral },
@@ -316,6 +326,8 @@ fn evaluate(case: &C02Case, sspec: &ScenarioSpec, res: &ScenarioResult, total: u
         }
         let want: Vec<&WFrame> = fin.iter().filter(|w| in_scope(w, scope)).collect();
         checks += 1;
+        // (frames a writer removed again may have been seen before they went)
+        let seen: Vec<&WFrame> = seen.into_iter().filter(|w| !removed.contains(&w.id)).collect();
         if seen != want {
             let seen_ids: BTreeSet<&String> = seen.iter().map(|w| &w.id).collect();
             let missed: Vec<&String> = want.iter().map(|w| &w.id).filter(|i| !seen_ids.contains(i)).collect();
@@ -399,6 +411,9 @@ fn evaluate(case: &C02Case, sspec: &ScenarioSpec, res: &ScenarioResult, total: u
         }
     }
     let mut labels = vec![];
+    if !removed.is_empty() {
+        labels.push("writers-remove-earlier-frames".to_string());
+    }
     if case.stress.is_some() {
         labels.push("hook-free-stress".to_string());
     } else {
